@@ -386,7 +386,14 @@ def job_graph(job):
             if kind == 'array-valued-ndarray':
                 ks = tuple(rand_keys(rng, alg, 'sparse') or (1,))
                 return MultiVector.fromkeysvalues(alg, ks, np.array([[float(rng.randint(-5, 5)), float(rng.randint(-5, 5)), 1.0] for _ in ks])), kind
-        kinds = ['sparse', 'permuted', 'dense-canonical', 'dense-binary', 'ndarray-backed', 'ndarray-dense-canonical', 'array-valued', 'array-valued-ndarray']
+            if kind == 'array-valued-2axes':
+                ks = tuple(rand_keys(rng, alg, 'sparse') or (1,))
+                return MultiVector.fromkeysvalues(alg, ks, [np.array([[float(rng.randint(-9, 9)) for _ in range(3)] for _ in range(2)]) for _ in ks]), kind
+            if kind == 'array-valued-ndarray-2axes':
+                ks = tuple(rand_keys(rng, alg, 'sparse') or (1,))
+                return MultiVector.fromkeysvalues(alg, ks, np.array([[[float(rng.randint(-9, 9)) for _ in range(2)] for _ in range(3)] for _ in ks])), kind
+        kinds = ['sparse', 'permuted', 'dense-canonical', 'dense-binary', 'ndarray-backed', 'ndarray-dense-canonical', 'array-valued', 'array-valued-ndarray',
+                 'array-valued-2axes', 'array-valued-ndarray-2axes']
         for it in range(cfg.get('random', 6)):
             # a nested subject tree and the flat list of (expected coefficient vectors) in traversal order
             leaves = []
@@ -434,8 +441,11 @@ def job_graph(job):
             exp_flat = []
             for m, kind in leaves:
                 if len(m.shape) > 1:
-                    for sub in m.itermv():
-                        exp_flat.append((expected(sub), kind))
+                    # element by element in C order over the trailing axes, computed from the arrays themselves
+                    arrs = [np.asarray(v) for v in m.values()]
+                    for idx in np.ndindex(*arrs[0].shape):
+                        d_ = {k: float(a[idx]) for k, a in zip(m.keys(), arrs)}
+                        exp_flat.append(([d_.get(k, 0.0) for k in canon], kind))
                 else:
                     exp_flat.append((expected(m), kind))
             if len(flat) != len(exp_flat):
